@@ -10,15 +10,16 @@ import (
 )
 
 // Value is a symbolic Go value:
-//   *Term            bool, integers, float64 (constants included)
-//   string / *SymStr strings (concrete / formatted with symbolic arguments)
-//   StructV, ArrayV  aggregates (value semantics; copied on load/store)
-//   SliceV           Go slice over a shared backing []Value
-//   *Value           pointer (nil Go pointer = nil)
-//   *MapV, *ChanV    reference types (typed nil pointer = nil)
-//   IfaceV           interface value
-//   *ssa.Function, *ClosureV, *ssa.Builtin   function values
-//   TupleV           multiple results
+//
+//	*Term            bool, integers, float64 (constants included)
+//	string / *SymStr strings (concrete / formatted with symbolic arguments)
+//	StructV, ArrayV  aggregates (value semantics; copied on load/store)
+//	SliceV           Go slice over a shared backing []Value
+//	*Value           pointer (nil Go pointer = nil)
+//	*MapV, *ChanV    reference types (typed nil pointer = nil)
+//	IfaceV           interface value
+//	*ssa.Function, *ClosureV, *ssa.Builtin   function values
+//	TupleV           multiple results
 type Value interface{}
 
 type StructV []Value
